@@ -43,6 +43,51 @@ def work(job):
     return out
 
 
+def link_work(job):
+    """Separately compiled modules (every import DAG on 3 modules, flat names and one directory per module), stored, linked with the
+    default linker: the functions of the LINKED program, with the linked program's function table."""
+    import contextlib
+    import io
+    import os
+    import pickle
+    import c16
+    from nsl import Compiler, LinearIR
+    scratch, opt = job
+    out = []
+    dags = [[sorted(a), sorted(b), []] for a in ([], [2], [3], [2, 3]) for b in ([], [3])]
+    for k, dag in enumerate(dags):
+        for naming in ("flat", "dirs"):
+            d = os.path.join(scratch, f"c14link{int(opt)}", f"dag{k}{naming}")
+            os.makedirs(d, exist_ok=True)
+            os.chdir(d)
+            tag = f"link:dag{k}{naming}/{'O1' if opt else 'O0'}"
+            srcs = {}
+            try:
+                mods = {}
+                for m in (3, 2, 1):
+                    srcs[c16.mname(m, naming)] = c16.module_source(m, dag, "", 3, naming=naming)
+                    with contextlib.redirect_stdout(io.StringIO()):
+                        r = Compiler.Compiler().Compile(srcs[c16.mname(m, naming)], {"optimize": opt})
+                    if r is None:
+                        raise RuntimeError(f"module {m} rejected")
+                    mods[m] = r.IRModule
+                    os.makedirs(os.path.dirname(os.path.abspath(c16.mname(m, naming) + ".nslir")), exist_ok=True)
+                    pickle.dump(r.IRModule, open(c16.mname(m, naming) + ".nslir", "wb"))
+                with contextlib.redirect_stdout(io.StringIO()):
+                    linker = LinearIR.Linker()
+                    linker.AddModule(mods[1])
+                    program = linker.Link()
+            except BaseException as e:  # noqa
+                out.append({"id": tag, "rejected": f"{type(e).__name__}: {e}"[:100], "src": json.dumps(srcs), "opt": opt})
+                continue
+            pm = irproj.project_module(program, LinearIR)
+            table = [{"name": f["name"], "argc": f["argc"]} for f in pm["funcs"]]
+            for f in pm["funcs"]:
+                out.append({"id": tag + "/" + f["name"], "fn": f, "table": table, "src": json.dumps(srcs), "opt": opt})
+    os.chdir("/")
+    return out
+
+
 def run(ctx, args):
     quick = ctx.tier == "quick"
     fam = optfamily.programs(3 if quick else 4)
@@ -54,13 +99,25 @@ def run(ctx, args):
     jobs = [("fam", fam[i:i + 60]) for i in range(0, len(fam), 60)] + [("gen", gen[i:i + 25]) for i in range(0, len(gen), 25)]
     with mp.Pool(16) as pool:
         recs = [r for out in pool.map(work, jobs) for r in out]
+        recs += [r for out in pool.map(link_work, [(str(ctx.scratch), False), (str(ctx.scratch), True)]) for r in out]
+    if not any(r["id"].startswith("link:") and "fn" in r for r in recs):
+        raise common.Machinery("no linked multi-module program was produced: " + str([r.get("rejected") for r in recs if r["id"].startswith("link:")][:2]))
     fns = [r for r in recs if "fn" in r]
     rejected = [r for r in recs if "rejected" in r]
     srcs = {r["id"]: (r["src"], r["opt"]) for r in fns}
     verdict = {}
     undef = {}
-    for lo in range(0, len(fns), 4000):
-        part = fns[lo:lo + 4000]
+    # identical functions (the helper of the family, functions the optimiser left alone) are checked once
+    uniq, same_as = {}, {}
+    for r in fns:
+        key = json.dumps([r["fn"], r["table"]], sort_keys=True)
+        if key in uniq:
+            same_as.setdefault(uniq[key]["id"], []).append(r["id"])
+        else:
+            uniq[key] = r
+    ufns = list(uniq.values())
+    for lo in range(0, len(ufns), 4000):
+        part = ufns[lo:lo + 4000]
         path = ctx.tmp("irwf-batch.json")
         path.write_text(json.dumps([{"id": r["id"], "fn": r["fn"], "table": r["table"]} for r in part]))
         res = ctx.tlc("IRWellFormed", "INIT Init\nNEXT Next\nVIEW View\nINVARIANT Report\nINVARIANT CrossComplete\nPROPERTY Monotone\nCHECK_DEADLOCK FALSE\n",
@@ -70,6 +127,12 @@ def run(ctx, args):
                 verdict[rec["id"]] = rec
             else:
                 undef.setdefault(rec["id"], []).append(rec["at"])
+    for first, others in same_as.items():
+        for o in others:
+            if first in verdict:
+                verdict[o] = verdict[first]
+            if first in undef:
+                undef[o] = undef[first]
     missing = [r["id"] for r in fns if r["id"] not in verdict]
     if missing:
         raise common.Machinery(f"IRWellFormed gave no verdict for {len(missing)} functions, e.g. {missing[:2]}")
@@ -101,7 +164,7 @@ def run(ctx, args):
              f"both optimisation levels: {len(fns)} functions / {ninstr} instructions projected and checked by IRWellFormed (static invariants + all control-flow paths; "
              "VIEW merges paths that agree on the references still usable). distinct_nontrivial = functions with more than one basic block.",
         samples=samples, traces_validated=len(fns),
-        assumptions=["the linked program is the module itself (no imports in these programs)",
+        assumptions=["for the family and the seeded programs the linked program is the module itself; the 32 linked multi-module programs (8 import DAGs x 2 namings x 2 levels) are checked with the linked program's function table",
                      "a reference counts as defined once the instruction carrying it executed on the path; stores, branches and returns define nothing"],
         extra={"functions": len(fns), "instructions": ninstr, "modules_rejected_by_compiler": len(rejected),
                "rejected_examples": [{"id": r["id"], "why": r["rejected"]} for r in rejected[:5]]})
